@@ -708,6 +708,13 @@ class EQLTranslator:
         :param query: The attribute query
         :return: SQLAlchemy column expression
         """
+        leaf = AttributeChainResolver().extract_leaf_variable(query)
+        if leaf is not self.select_like.selected_variable:
+            raise UnsupportedQueryTypeError(
+                "Only attributes of the selected variable can be translated; "
+                "other variables are supported in attribute equality joins only."
+            )
+
         attribute_names = self._collect_attribute_chain(query)
         base_class = self._extract_base_class(query)
 
